@@ -178,11 +178,20 @@ func (p *Proxy) forwardRpc(source string, rpc *goatorepo.Rpc) {
 	}
 }
 
+// report tells the forwarding loop that this connection failed, unless the
+// proxy is shutting down (nobody would receive the report then).
+func (c *proxyClient) report(ctx context.Context, err error) {
+	select {
+	case c.toServer <- command{id: c.id, err: err}:
+	case <-ctx.Done():
+	}
+}
+
 func (c *proxyClient) readLoop(ctx context.Context) error {
 	for {
 		rpc, err := c.conn.Read(ctx)
 		if err != nil {
-			c.toServer <- command{id: c.id, err: err}
+			c.report(ctx, err)
 			return errors.Wrap(err, "failed to read from connection")
 		}
 
@@ -201,7 +210,7 @@ func (c *proxyClient) writeLoop(ctx context.Context) error {
 
 			err := c.conn.Write(ctx, rpc)
 			if err != nil {
-				c.toServer <- command{id: c.id, err: err}
+				c.report(ctx, err)
 				return errors.Wrap(err, "failed to write to connection")
 			}
 		case <-ctx.Done():
@@ -222,7 +231,7 @@ func (c *proxyClient) connect(ctx context.Context, newConnection NewConnection) 
 
 	c.conn, err = newConnection(c.id)
 	if err != nil {
-		c.toServer <- command{id: c.id, err: err}
+		c.report(ctx, err)
 		return
 	}
 
